@@ -56,6 +56,9 @@ CHECKS = {
  "C20": dict(level="model_checking", technique="exhaustive enumeration of query histories per (expression, braille code, highlight style): every node id, every cell index incl. out-of-range, after navigation commands, with state snapshots after every query",
              text="One long history per (expression, code, style): get_braille for each node id / unknown id / '', node-from-braille for cells 0..35, 200, 9999, usize::MAX, set_navigation_node + get_braille_position + get_braille per id, and the queries again after 6 navigation commands. After every query the highlight preference and navigation position are re-read (every 6th also speech, braille, overview) and must be unchanged; positions must lie inside the braille; returned ids must belong to the expression; style Off / unknown id must give exactly the plain braille. Includes an expression whose braille fails (purity on the error path).",
              note="Highlighted braille that differs from the plain braille in more than dots 7-8 is counted, not judged (the statement makes no claim).", design="§4 C20", engine="E2"),
+ "C14": dict(level="fault_enumeration", technique="exhaustive enumeration of (rule file, fault kind, fault position, fault-before/after-load order) on a private Rules copy with a harness clock, followed by repair and differential comparison with the fault-free baseline",
+             text="Every rule file reachable from three configurations x 10-15 fault kinds (deleted, empty, scalar, map, not YAML, truncation at entry boundaries and mid-entry, uncompilable XPath, unknown key, wrongly typed definition/character entry, prefs of the wrong shape) x {fault before first load, after load}, plus 7 directory-level histories per configuration. Under a fault each call must return its pre-fault result, an error naming the file, or (well-formed shorter file / documented fallback) any Ok; nothing may panic; after restoring the file with a newer time stamp, CheckRuleFiles=All and re-pointing the rules directory every output must equal the baseline.",
+             note="File times come from a harness counter via File::set_modified. After an initialisation that already failed naming the file, and after a refused set_mathml, follow-on errors need not name the file again.", design="§4 C14", engine="E4"),
 }
 PENDING = {}
 
